@@ -238,11 +238,15 @@ impl<'a> Program<'a> {
                 if !b.is_integral() {
                     return Err(TypeError);
                 }
+                let port = u64::from(b);
+                if port > u16::MAX as u64 {
+                    return Err(TypeError);
+                }
 
                 /* TODO: Perhaps use location of the operator? */
                 self.loc = a_loc;
 
-                Val::Sock4(SocketAddrV4::new(a.into(), b.into()))
+                Val::Sock4(SocketAddrV4::new(a.into(), port as u16))
             }
         })
     }
